@@ -46,50 +46,66 @@ def gen_histories(prog, workdir, j=1, max_hist=4, max_cmds=3, invariants=(), wor
     return res, parse_printed(res)
 
 
-def hist_key(h):
-    return json.dumps([{k: v for k, v in s.items() if k != 'snap'} for s in h], sort_keys=True)
+def group_histories(hists):
+    """group specification behaviours by their user-level input"""
+    groups = {}
+    for h in hists:
+        groups.setdefault(harness.history_input(h), []).append(h)
+    # drop exact duplicates inside a group
+    out = {}
+    for k, hs in groups.items():
+        seen, uniq = set(), []
+        for h in hs:
+            js = json.dumps(h, sort_keys=True)
+            if js not in seen:
+                seen.add(js)
+                uniq.append(h)
+        out[k] = uniq
+    return out
 
 
-def interesting(h):
-    """non-trivial history: at least two commands, or a command after a user step"""
-    cmds = [i for i, s in enumerate(h) if s['a'] in ('cmd', 'query')]
-    builds = [i for i, s in enumerate(h) if s['a'] == 'cmd']
+def interesting(inp):
+    """non-trivial history input: at least two commands, one of them a build"""
+    cmds = [s for s in inp if s[0] in ('cmd', 'query')]
+    builds = [s for s in inp if s[0] == 'cmd']
     return len(builds) >= 1 and len(cmds) >= 2
 
 
-def replay_all(prog, hists, bindir, root, nworkers=8, log_mode=None, keep_failed=True, cmd_timeout=60):
-    """Replay histories in parallel.  Returns (n_ok, failures) with failures = list of
-    (history, report, dir)."""
+def replay_all(prog, groups, bindir, root, nworkers=8, log_mode=None, keep_failed=True, cmd_timeout=60):
+    """Replay history groups (list of lists of alternatives) in parallel.
+    Returns (n_ok, failures) with failures = list of (alts, report, dir)."""
     os.makedirs(root, exist_ok=True)
     failures = []
     n_ok = 0
 
-    def one(ih):
-        i, h = ih
+    def one(ig):
+        i, alts = ig
         d = os.path.join(root, 'h%05d' % i)
         try:
-            ok, rep = harness.replay_history(prog, h, d, bindir, log_mode=log_mode, cmd_timeout=cmd_timeout)
+            ok, rep = harness.replay_group(prog, alts, d, bindir, log_mode=log_mode, cmd_timeout=cmd_timeout)
         except Exception as ex:      # harness trouble is reported as a failure of that history
-            ok, rep = False, [{'diffs': ['harness exception: %r' % ex]}]
+            import traceback
+            ok, rep = False, [{'diffs': ['harness exception: %r %s' % (ex, traceback.format_exc()[-600:])]}]
         if ok:
             shutil.rmtree(d, ignore_errors=True)
-        return i, h, ok, rep, d
+        return i, alts, ok, rep, d
 
     with ThreadPoolExecutor(max_workers=nworkers) as ex:
-        for i, h, ok, rep, d in ex.map(one, list(enumerate(hists))):
+        for i, alts, ok, rep, d in ex.map(one, list(enumerate(groups))):
             if ok:
                 n_ok += 1
             else:
-                failures.append((h, rep, d))
+                failures.append((alts, rep, d))
                 if keep_failed:
                     os.makedirs(d, exist_ok=True)
                     with open(os.path.join(d, 'history.json'), 'w') as f:
-                        json.dump({'program': prog, 'history': h, 'report': rep}, f, indent=1, default=list)
+                        json.dump({'program': prog, 'alternatives': alts, 'report': rep}, f, indent=1, default=list)
     return n_ok, failures
 
 
-def sample(hists, n, seed):
-    hs = sorted(hists, key=hist_key)
+def sample(groups, n, seed):
+    """groups: dict input -> alternatives; deterministic sample of n inputs"""
+    keys = sorted(groups, key=repr)
     rnd = random.Random(seed)
-    rnd.shuffle(hs)
-    return hs[:n]
+    rnd.shuffle(keys)
+    return [groups[k] for k in keys[:n]]
